@@ -11,7 +11,7 @@ import (
 
 func init() {
 	register("C05", propMeta{
-		Explanation: "E-PROV + E-GUARD + E-OWN on the server's carrier path. O-1 one identity per carrier: in turbotunnelMode the address given to QueueIncoming, the argument of OutgoingQueue and the key of clientIDAddrMap.Set all load from one local ClientID whose only writer is io.ReadFull(conn, clientID[:]), and all are reachable only through that read's err == nil edge; the packets queued are the results of encapsulation.ReadData on this carrier and the packets written to it are the values received from that OutgoingQueue, through a writer created by this invocation around this carrier (no state shared between carriers). O-2 token gate: turbotunnelMode is reachable only through the true edge of bytes.Equal(token, turbotunnel.Token) with token filled by a successful io.ReadFull; QueueIncoming/OutgoingQueue/Set are called from turbotunnelMode only; the carrier is closed on every path (deferred Close). O-3 address-tag integrity in the queue connection: QueueIncoming enqueues its addr parameter with its packet, ReadFrom returns P and Addr of one received element, WriteTo and OutgoingQueue use SendQueue(addr) of their parameter, and enqueued packets are private copies (shared with C17 O-4). O-4 map/heap index consistency of the client map (Swap/Push/Pop/SendQueue keep byAddr[record.Addr] = position). O-5 typed addresses: every QueueIncoming/OutgoingQueue call passes a turbotunnel.ClientID and ClientID.String() encodes the whole identifier (KCP keys sessions by the address string). O-6 one accepted connection per stream: queueConn is called once per successful AcceptStream, from acceptStreams only, and is the only sender on the accept queue. Added after the second seeding round: O-6/C01 the protocol-constant obligations of C01 including the smux keep-alive timeout against the client-map retention; a ClientID cell that is not filled by io.ReadFull is a violation; helpers of turbotunnelMode with one call site count as part of it. Added after the third seeding round: the per-session goroutine of the accept loop captures per-iteration variables only; every carrier records its address (empty included) before it is served, so a later carrier's absence of an address cannot leave an earlier one in place. Added after the fourth seeding round: O-4 no byAge[i] is read after heap.Fix/Push/Pop moved the records, and Swap re-indexes the record that ends up in each slot; O-9/C17 the queue connection reports an error only after close (a full queue reported as an error makes KCP end the session at the first gap between carriers).",
+		Explanation: "E-PROV + E-GUARD + E-OWN on the server's carrier path. O-1 one identity per carrier: in turbotunnelMode the address given to QueueIncoming, the argument of OutgoingQueue and the key of clientIDAddrMap.Set all load from one local ClientID whose only writer is io.ReadFull(conn, clientID[:]), and all are reachable only through that read's err == nil edge; the packets queued are the results of encapsulation.ReadData on this carrier and the packets written to it are the values received from that OutgoingQueue, through a writer created by this invocation around this carrier (no state shared between carriers). O-2 token gate: turbotunnelMode is reachable only through the true edge of bytes.Equal(token, turbotunnel.Token) with token filled by a successful io.ReadFull; QueueIncoming/OutgoingQueue/Set are called from turbotunnelMode only; the carrier is closed on every path (deferred Close). O-3 address-tag integrity in the queue connection: QueueIncoming enqueues its addr parameter with its packet, ReadFrom returns P and Addr of one received element, WriteTo and OutgoingQueue use SendQueue(addr) of their parameter, and enqueued packets are private copies (shared with C17 O-4). O-4 map/heap index consistency of the client map (Swap/Push/Pop/SendQueue keep byAddr[record.Addr] = position). O-5 typed addresses: every QueueIncoming/OutgoingQueue call passes a turbotunnel.ClientID and ClientID.String() encodes the whole identifier (KCP keys sessions by the address string). O-6 one accepted connection per stream: queueConn is called once per successful AcceptStream, from acceptStreams only, and is the only sender on the accept queue. Added after the second seeding round: O-6/C01 the protocol-constant obligations of C01 including the smux keep-alive timeout against the client-map retention; a ClientID cell that is not filled by io.ReadFull is a violation; helpers of turbotunnelMode with one call site count as part of it. Added after the third seeding round: the per-session goroutine of the accept loop captures per-iteration variables only; every carrier records its address (empty included) before it is served, so a later carrier's absence of an address cannot leave an earlier one in place. Added after the fourth seeding round: O-4 no byAge[i] is read after heap.Fix/Push/Pop moved the records, and Swap re-indexes the record that ends up in each slot; O-9/C17 the queue connection reports an error only after close (a full queue reported as an error makes KCP end the session at the first gap between carriers). Added after the fifth seeding round: O-1b the QueuePacketConn a listener's KCP engine reads from is created by that call of Listen; O-9/C17 the heap.Interface methods of the client map are called by container/heap only; turbotunnelMode is found by its simple name if it became a method, its parameters by type.",
 		NotDecided:  "continuity of the byte stream across carriers (KCP), the retention arithmetic (C17 O-7), packet interleaving of overlapping carriers, kcp-go's own session table.",
 		Assumptions: []string{"kcp-go keys its sessions by RemoteAddr().String()", "encapsulation.ReadData returns a fresh slice per packet"},
 	}, runC05)
@@ -23,7 +23,7 @@ func runC05(c *Ctx) {
 	for _, fn := range srv {
 		c.analysedFn(p.FnName(fn))
 	}
-	tm := p.Fn("server/lib", "turbotunnelMode")
+	tm := p.FnLoose("server/lib", "turbotunnelMode")
 	sh := p.Fn("server/lib", "(*httpHandler).ServeHTTP")
 	if tm == nil || sh == nil {
 		c.undecided("O-0 anchors", "turbotunnelMode/ServeHTTP", "-", "anchor does not resolve")
@@ -165,9 +165,9 @@ func runC05(c *Ctx) {
 		c.undecided(rule1, "uses of the ClientID", p.Pos(tm.Pos()), fmt.Sprintf("%d found, expected QueueIncoming, OutgoingQueue and Set", nUse))
 	}
 	// packets queued come from ReadData(conn); packets written come from the OutgoingQueue receive
-	connPar := tm.Params[0]
+	connPar := paramOfType(tm, "net.Conn")
 	isConn := func(v ssa.Value) bool {
-		return sameValue(v, func(w ssa.Value) bool { return w == ssa.Value(connPar) })
+		return connPar != nil && sameValue(v, func(w ssa.Value) bool { return w == ssa.Value(connPar) })
 	}
 	for _, fn := range all {
 		for _, ci := range callsIn(fn) {
@@ -310,12 +310,46 @@ func runC05(c *Ctx) {
 	// ---------- O-3 address-tag integrity ----------
 	c.checkQueueTags()
 
+	// one packet engine, one queue: the QueuePacketConn a listener's KCP engine reads from is created by that call of
+	// Listen (two engines reading one queue split every session's packets between them)
+	if ln := p.Fn("server/lib", "(*Transport).Listen"); ln != nil {
+		ruleL := "O-1b one queue connection per KCP engine"
+		n := 0
+		for _, ci := range callsTo(ln, "github.com/xtaci/kcp-go/v5.ServeConn") {
+			n++
+			args := ci.Common().Args
+			pc := args[len(args)-1]
+			fresh := flows(pc, func(v ssa.Value) bool {
+				cc, _, ok := callResult1(strip(v))
+				return ok && calleeName(cc) == "common/turbotunnel.NewQueuePacketConn" && belongsTo(cc.Parent(), ln) && cc.Parent() == ln
+			})
+			shared := flows(pc, func(v ssa.Value) bool {
+				if _, f, ok := fieldLoad(v); ok && f.Pkg() != nil && strings.HasPrefix(f.Pkg().Path(), modPath) && f.Name() != "pconn" {
+					return true
+				}
+				if base, f, ok := fieldLoad(v); ok && f.Name() == "pconn" {
+					// a field of the handler built in this call is fine; a field of the Transport (receiver) is shared
+					if _, isPar := strip(base).(*ssa.Parameter); isPar {
+						return true
+					}
+				}
+				_, isG := v.(*ssa.Global)
+				return isG
+			})
+			c.check(fresh && !shared, ruleL, "Listen serves KCP on a QueuePacketConn it created itself", p.instrPos(ci), "", "the packet connection handed to kcp.ServeConn is not created by this call of Listen (a field of the Transport, a package-level value): listeners share one queue and each engine sees only part of a session's packets")
+		}
+		if n == 0 {
+			c.undecided(ruleL, "Listen starts a KCP engine", p.Pos(ln.Pos()), "no kcp.ServeConn call found")
+		}
+	}
 	// ---------- O-4 client map index consistency ----------
 	c.checkClientMapIndex()
 	// a session outlives a gap between carriers only if the queue connection never reports a full queue (or any
 	// other transient condition) as an error: KCP closes the session on the first WriteTo error (C17's obligation)
 	c.prefix = "O-9/C17:"
 	c.checkErrorsOnlyAfterClose("QueuePacketConn")
+	// records leave the map oldest first, through container/heap only (a direct Pop removes the newest client)
+	c.checkHeapMethodsPrivate("O-7 expiry shape", "common/turbotunnel", "clientMapInner")
 	c.prefix = ""
 
 	// ---------- O-5 typed addresses / identity string ----------
@@ -480,8 +514,14 @@ func (c *Ctx) checkQueueTags() {
 		par int
 	}{{wt, 2}, {oq, 1}} {
 		ok := false
-		for _, ci := range callsTo(w.fn, "(*common/turbotunnel.ClientMap).SendQueue") {
-			if ci.Common().Args[1] == ssa.Value(w.fn.Params[w.par]) {
+		// the queue is looked up with this function's addr parameter, here or in a helper that is handed it
+		for _, d := range deepCalls(w.fn, 2, "(*common/turbotunnel.ClientMap).SendQueue", "(*common/turbotunnel.clientMapInner).SendQueue") {
+			ci, okc := d.In.(ssa.CallInstruction)
+			if !okc {
+				continue
+			}
+			if sameValue(ci.Common().Args[1], func(v ssa.Value) bool { return v == ssa.Value(w.fn.Params[w.par]) }) ||
+				xforms(ci.Common().Args[1], func(v ssa.Value) bool { return v == ssa.Value(w.fn.Params[w.par]) }) {
 				ok = true
 			}
 		}
@@ -495,8 +535,19 @@ func (c *Ctx) checkQueueTags() {
 }
 
 // checkCopyOnEnqueueFor re-uses the C17 O-4 payload rule for selected functions.
-func (c *Ctx) checkCopyOnEnqueueFor(rule string, fns []*ssa.Function) {
+func (c *Ctx) checkCopyOnEnqueueFor(rule string, fns0 []*ssa.Function) {
 	p := c.P
+	// the send may live in an unexported helper with one call site (ClientMap.trySend for WriteTo)
+	var fns []*ssa.Function
+	seenFn := map[*ssa.Function]bool{}
+	for _, f0 := range fns0 {
+		for _, f := range helperFns(f0, 1) {
+			if !seenFn[f] {
+				seenFn[f] = true
+				fns = append(fns, f)
+			}
+		}
+	}
 	for _, fn := range fns {
 		for _, op := range chanOpsIn(p, fn) {
 			if op.Dir != chSend {
@@ -511,6 +562,19 @@ func (c *Ctx) checkCopyOnEnqueueFor(rule string, fns []*ssa.Function) {
 				}
 			}
 			ms, _ := strip(payload).(*ssa.MakeSlice)
+			owner := fn
+			if ms == nil {
+				if par, isPar := strip(payload).(*ssa.Parameter); isPar {
+					if site := uniqueSite(fn); site != nil {
+						for i, fp := range fn.Params {
+							if fp == par && i < len(site.Common().Args) {
+								ms, _ = strip(site.Common().Args[i]).(*ssa.MakeSlice)
+								owner = site.Parent()
+							}
+						}
+					}
+				}
+			}
 			copied := false
 			if ms != nil && ms.Referrers() != nil {
 				for _, r := range *ms.Referrers() {
@@ -519,7 +583,7 @@ func (c *Ctx) checkCopyOnEnqueueFor(rule string, fns []*ssa.Function) {
 					}
 				}
 			}
-			c.check(ms != nil && ms.Parent() == fn && copied, rule, p.FnName(fn)+" enqueues a private copy", p.instrPos(op.Instr), "", "the enqueued packet aliases the caller's buffer (kcp-go recycles its transmit buffers): packets waiting in one client's queue are overwritten with another client's traffic")
+			c.check(ms != nil && ms.Parent() == owner && copied, rule, p.FnName(fn)+" enqueues a private copy", p.instrPos(op.Instr), "", "the enqueued packet aliases the caller's buffer (kcp-go recycles its transmit buffers): packets waiting in one client's queue are overwritten with another client's traffic")
 		}
 	}
 }
@@ -622,7 +686,11 @@ func (c *Ctx) checkClientMapIndex() {
 	// Pop: delete(byAddr, record.Addr)
 	{
 		ok := false
-		for _, ci := range callsTo(pop, "builtin.delete") {
+		for _, d := range deepCalls(pop, 2, "builtin.delete") {
+			ci, okci := d.In.(ssa.CallInstruction)
+			if !okci {
+				continue
+			}
 			_, mf, okm := fieldLoad(ci.Common().Args[0])
 			_, kf, okk := fieldLoad(ci.Common().Args[1])
 			if okm && okk && mf.Name() == "byAddr" && kf.Name() == "Addr" {
